@@ -22,6 +22,7 @@ type Obligation struct {
 	Tags         []string // property ids
 	Src          string   // clause source text (for functional obligations)
 	Expect       string   // "unsat" (must hold) or "sat" (vacuity cover: must be reachable)
+	Retried      bool     // undecided at the first attempt, solved again with a longer budget
 	x            *Exec
 	nDecl        int
 	CrossChecked bool
@@ -1029,12 +1030,39 @@ func (x *Exec) prepareLoopBody(fr *Frame, ordinal int, st *State) error {
 		}
 		for _, inv := range l.lc.Invariants {
 			env := x.frameEnv(fr, st, l.pos)
+			if env.old == nil && mentionsEntryState(inv.Expr) {
+				// a loop body executed on its own has no function-entry state: conjuncts that relate
+				// to it are not assumed (assuming less is sound)
+				for _, c := range conjuncts(inv.Expr) {
+					if mentionsEntryState(c) {
+						continue
+					}
+					if t, e := x.specBool(env, c); e == nil {
+						x.assume(st, t)
+					}
+				}
+				continue
+			}
 			if t, e := x.specBool(env, inv.Expr); e == nil {
 				x.assume(st, t)
 			}
 		}
 	}
 	return nil
+}
+
+// mentionsEntryState reports whether a specification expression refers to the function's entry state.
+func mentionsEntryState(e ast.Expr) bool {
+	found := false
+	ast.Inspect(e, func(n ast.Node) bool {
+		if c, ok := n.(*ast.CallExpr); ok {
+			if id, ok := c.Fun.(*ast.Ident); ok && (id.Name == "old" || id.Name == "same" || id.Name == "unchanged") {
+				found = true
+			}
+		}
+		return !found
+	})
+	return found
 }
 
 // runLoopBody executes the prepared loop body from st to the back edge.
